@@ -23,13 +23,13 @@ func zzC06LockCall(s *zzStore, txn *KVTxn, which int) error {
 	var keys [][]byte
 	switch which {
 	case 0:
-		keys = zzC06Keys[:1]
+		keys = zzC06Keys[:1] // a
 	case 1:
-		keys = zzC06Keys[:2]
+		keys = zzC06Keys[1:] // b,x: two regions
 	case 2:
-		keys = zzC06Keys[1:]
+		keys = zzC06Keys[:2] // a,b: one region
 	case 3:
-		keys = zzC06Keys[2:]
+		keys = zzC06Keys[2:] // x
 	}
 	return txn.LockKeys(context.Background(), lockCtx, keys...)
 }
@@ -58,7 +58,7 @@ func zzC06Finish(s *zzStore, cl *zzCluster, txn *KVTxn) {
 // ZZ_C06_lock_calls: a sequence of LockKeys calls with scripted outcomes
 // (ok / write conflict / key exists / deadlock), then Commit or Rollback.
 func ZZ_C06_lock_calls() {
-	s, cl := zzNewStore([][]byte{[]byte("m")}, zzParam("rerr", 1))
+	s, cl := zzNewStoreTS([][]byte{[]byte("m")}, zzParam("rerr", 1), false)
 	defer s.close()
 	cl.lockOutcomes = true
 	cl.regionErrorsOnly = true
@@ -70,7 +70,7 @@ func ZZ_C06_lock_calls() {
 	txn.SetPessimistic(true)
 	n := zzParam("calls", 2)
 	for i := 0; i < n; i++ {
-		_ = zzC06LockCall(s, txn, zzChoice("keys", 4))
+		_ = zzC06LockCall(s, txn, zzChoice("keys", zzParam("keysets", 2)))
 		if zzChoice("write", 2) == 1 {
 			_ = txn.Set(zzC06Keys[0], []byte("v"))
 		}
@@ -81,7 +81,7 @@ func ZZ_C06_lock_calls() {
 // ZZ_C06_aggressive: start / lock / retry / lock / done-or-cancel sequences of
 // aggressive (fair) locking, then Commit or Rollback.
 func ZZ_C06_aggressive() {
-	s, cl := zzNewStore([][]byte{[]byte("m")}, zzParam("rerr", 1))
+	s, cl := zzNewStoreTS([][]byte{[]byte("m")}, zzParam("rerr", 1), false)
 	defer s.close()
 	cl.lockOutcomes = true
 	cl.regionErrorsOnly = true
@@ -92,16 +92,16 @@ func ZZ_C06_aggressive() {
 	txn := zzBegin(s)
 	txn.SetPessimistic(true)
 	if zzChoice("lockBefore", 2) == 1 {
-		_ = zzC06LockCall(s, txn, zzChoice("keys0", 4))
+		_ = zzC06LockCall(s, txn, zzChoice("keys0", zzParam("keysets", 2)))
 	}
 	txn.StartAggressiveLocking()
-	_ = zzC06LockCall(s, txn, zzChoice("keys1", 4))
+	_ = zzC06LockCall(s, txn, zzChoice("keys1", zzParam("keysets", 2)))
 	rounds := zzParam("rounds", 1)
 	for i := 0; i < rounds; i++ {
 		// LockKeys may itself leave aggressive mode when it is inapplicable
 		if txn.IsInAggressiveLockingMode() && zzChoice("retry", 2) == 1 {
 			txn.RetryAggressiveLocking(context.Background())
-			_ = zzC06LockCall(s, txn, zzChoice("keys2", 4))
+			_ = zzC06LockCall(s, txn, zzChoice("keys2", zzParam("keysets", 2)))
 		}
 	}
 	zzC06Finish(s, cl, txn)
@@ -111,7 +111,7 @@ func ZZ_C06_aggressive() {
 // (the primary lock is rolled back by another client's resolver) cleans up
 // every prewritten lock, also when clean-up requests meet region errors.
 func ZZ_C06_failed_commit() {
-	s, cl := zzNewStore([][]byte{[]byte("m")}, 1+zzParam("rerr", 1))
+	s, cl := zzNewStoreTS([][]byte{[]byte("m")}, 1+zzParam("rerr", 1), true)
 	defer s.close()
 	cl.allowFaultOn = func(cmd tikvrpc.CmdType) bool { return true }
 	cl.regionErrorsOnly = true // no message is lost; the foreign resolver is the source of the failure
